@@ -13,7 +13,7 @@ impl<S> Interp1D<S> {
         &&& forall|i: int| 0 <= i < self.data.rows@.len() ==> (#[trigger] self.data.rows@[i]).len() == self.data.rows@[0].len()
     }
 }
-pub open spec fn in_range(s: Seq<T>, q: T) -> bool { t_le(s[0], q) && t_le(q, s[s.len() - 1]) }
+pub open spec fn in_closed_range(s: Seq<T>, q: T) -> bool { t_le(s[0], q) && t_le(q, s[s.len() - 1]) }
 
 pub trait Interp1DStrategy: Sized {
     spec fn strat_wf(&self, i: &Interp1D<Self>) -> bool;
@@ -23,7 +23,7 @@ pub trait Interp1DStrategy: Sized {
         requires interpolator.wf(), self.strat_wf(interpolator), self.query_ok(x);
 }
 
-/// row `i` of the Linear interpolant at `x`, lane by lane, as a term over the rounding operators
-pub open spec fn linear_at<S>(it: &Interp1D<S>, i: int, x: T, j: int) -> T {
-    cf(it.x@[i], it.data.rows@[i][j], it.x@[i + 1], it.data.rows@[i + 1][j], x)
+/// lane j of the target holds the Linear interpolant of rows i, i+1 at x (value-level, see lin_ok)
+pub open spec fn linear_ok<S>(r: T, it: &Interp1D<S>, i: int, x: T, j: int) -> bool {
+    lin_ok(r, it.x@[i], it.data.rows@[i][j], it.x@[i + 1], it.data.rows@[i + 1][j], x)
 }
